@@ -208,7 +208,6 @@ def mkfile(rng, stmts=None, poison=None, rich=False, allow_bad=True):
 # ---------------------------------------------------------------------------------------------
 # trees
 # ---------------------------------------------------------------------------------------------
-PY_NAMES = ["a.py", "b.py", "z.py", "m.n.py", "UPPER.py", "_u.py", "10.py", "9.py", "c.py"]
 
 
 class _Ctr:
@@ -220,30 +219,71 @@ class _Ctr:
         return self.n
 
 
-def gen_dbdir(rng, dev, ctr, depth=0, allow_bad=True):
+# directory names: the name of an intermediate directory must not matter (dots, several "extensions",
+# names ending in .py, upper case, digits) — only hidden names and __pycache__ are not descended into
+SUBDIR_NAMES = ["sub", "nested", "A", "conf.d", "py3.12", "v1.2", "known.imports", "x.py.bak", "pkg.py", "a.b",
+                "UP.D", "site-packages", "d.py", "lib.pyc", "t.txt", "local"]
+# regular files that must be read (…*.py, whatever comes before) / must not be read
+PY_NAMES = ["a.py", "b.py", "z.py", "m.n.py", "UPPER.py", "_u.py", "10.py", "9.py", "c.py", "a.b.py", "c.d.e.py",
+            "py.py", "x.bak.py", "__pycache__.py", "forget.py"]
+NONPY_NAMES = ["notes.txt", "py", "x.pyc", "y.py~", "x.py.bak", "noext", "setup.cfg", "a.py.orig", "README", "b.PY", "c.pyi",
+               "a b.py", "~t.py", "ü.py", ".hidden.py", ".a.py"]
+STORE = "/store"
+
+
+def gen_store(rng, dev, ctr, allow_bad):
+    """Targets of the symbolic links: one file, one directory with a dotted sub-directory."""
+    pkg = {"dev": dev, "ch": [
+        ["a.py", mkfile(rng, allow_bad=allow_bad)],
+        ["notes.txt", mkfile(rng, poison=ctr.next())],
+        ["v1.2", {"dev": dev, "ch": [["sub", {"dev": dev, "ch": [["deep.py", mkfile(rng, allow_bad=allow_bad)]]}]]}],
+    ]}
+    return {"dev": dev, "ch": [["pkg", pkg], ["real.py", mkfile(rng, rich=True, allow_bad=allow_bad)],
+                               ["real.txt", mkfile(rng, poison=ctr.next())]]}
+
+
+def _link(store, target):
+    """A symbolic link to STORE/<target>: for the model and the oracle a copy of the target node."""
+    import copy
+    node = store
+    for c in target.split("/"):
+        node = dict(node["ch"])[c]
+    node = copy.deepcopy(node)
+    node["ln"] = STORE + "/" + target
+    return node
+
+
+def gen_dbdir(rng, dev, ctr, depth=0, allow_bad=True, store=None):
     ch = {}
-    for nm in rng.sample(PY_NAMES, rng.randint(1, 3)):
+    for nm in rng.sample(PY_NAMES, rng.randint(0 if depth else 1, 3)):
         ch[nm] = mkfile(rng, allow_bad=allow_bad)
+    for nm in NONPY_NAMES:
+        if rng.random() < 0.08:
+            ch[nm] = mkfile(rng, poison=ctr.next())
     opts = [
-        ("notes.txt", lambda: mkfile(rng, poison=ctr.next())),
-        (".hidden.py", lambda: mkfile(rng, poison=ctr.next())),
         (".hid", lambda: {"dev": dev, "ch": [["x.py", mkfile(rng, poison=ctr.next())]]}),
+        (".conf.d", lambda: {"dev": dev, "ch": [["x.py", mkfile(rng, poison=ctr.next())]]}),
         ("__pycache__", lambda: {"dev": dev, "ch": [["c.py", mkfile(rng, poison=ctr.next())]]}),
-        ("d.py", lambda: {"dev": dev, "ch": [["in.py", mkfile(rng, allow_bad=allow_bad)]]}),
-        ("a b.py", lambda: mkfile(rng, poison=ctr.next())),
-        ("py", lambda: mkfile(rng, poison=ctr.next())),
-        ("x.pyc", lambda: mkfile(rng, poison=ctr.next())),
-        ("y.py~", lambda: mkfile(rng, poison=ctr.next())),
-        ("~t.py", lambda: mkfile(rng, poison=ctr.next())),
-        ("ü.py", lambda: mkfile(rng, poison=ctr.next())),
         ("empty", lambda: {"dev": dev, "ch": []}),
-        ("__pycache__.py", lambda: mkfile(rng, allow_bad=allow_bad)),
+        ("empty.d", lambda: {"dev": dev, "ch": []}),
+        ("a b", lambda: {"dev": dev, "ch": [["x.py", mkfile(rng, poison=ctr.next())]]}),
     ]
     for nm, mk in opts:
-        if rng.random() < 0.13:
+        if rng.random() < 0.08:
             ch[nm] = mk()
-    if depth < 2 and rng.random() < 0.35:
-        ch[rng.choice(["sub", "nested", "A"])] = gen_dbdir(rng, dev, ctr, depth + 1, allow_bad)
+    if store is not None:
+        links = [("ln.py", "real.py"), ("lnk", "real.py"), ("ln.txt", "real.py"), ("lnd", "pkg"), ("ln.d", "pkg"),
+                 ("lnd.py", "pkg"), (".lnd", "pkg"), ("lnt.py", "real.txt"), ("deep.lnk", "pkg/v1.2")]
+        for nm, tgt in links:
+            if rng.random() < 0.05:
+                ch[nm] = _link(store, tgt)
+        if rng.random() < 0.04:
+            ch["broken.py"] = {"ln": "/nowhere/gone.py", "broken": True, "text": "", "stmts": [], "syn": False}
+    # sub-directories: up to depth 4, mostly with a dot somewhere in the name
+    if depth < 4:
+        n = rng.choice([0, 1, 1, 2] if depth < 2 else [0, 0, 1])
+        for nm in rng.sample(SUBDIR_NAMES, n):
+            ch[nm] = gen_dbdir(rng, dev, ctr, depth + 1, allow_bad, store)
     return {"dev": dev, "ch": [[k, ch[k]] for k in sorted(ch)]}
 
 
@@ -283,6 +323,11 @@ def gen_tree(rng, allow_bad=True):
         _put(root, parent, nm, {"dev": dev, "ch": []})
     if rng.random() < 0.15:
         _put(root, "proj", "a b", {"dev": _get(root, "proj")["dev"], "ch": []})
+    # targets of symbolic links (half of the worlds have links)
+    store = None
+    if rng.random() < 0.5:
+        store = gen_store(rng, 0, ctr, allow_bad)
+        _put(root, "", "store", store)
     # search-path material
     for spot in DB_SPOTS:
         d = _get(root, spot)
@@ -291,12 +336,12 @@ def gen_tree(rng, allow_bad=True):
                 if rng.random() < 0.5:
                     _put(root, spot, nm, mkfile(rng, rich=rng.random() < 0.5, allow_bad=allow_bad))
                 else:
-                    _put(root, spot, nm, gen_dbdir(rng, d["dev"], ctr, allow_bad=allow_bad))
-    _put(root, "proj", "db", gen_dbdir(rng, _get(root, "proj/db")["dev"], ctr, allow_bad=allow_bad))
+                    _put(root, spot, nm, gen_dbdir(rng, d["dev"], ctr, allow_bad=allow_bad, store=store))
+    _put(root, "proj", "db", gen_dbdir(rng, _get(root, "proj/db")["dev"], ctr, allow_bad=allow_bad, store=store))
     if rng.random() < 0.7:
-        _put(root, "etc", "pyflyby", gen_dbdir(rng, _get(root, "etc/pyflyby")["dev"], ctr, allow_bad=allow_bad))
+        _put(root, "etc", "pyflyby", gen_dbdir(rng, _get(root, "etc/pyflyby")["dev"], ctr, allow_bad=allow_bad, store=store))
     if rng.random() < 0.3:
-        _put(root, "proj", "rel", gen_dbdir(rng, _get(root, "proj")["dev"], ctr, allow_bad=allow_bad))
+        _put(root, "proj", "rel", gen_dbdir(rng, _get(root, "proj")["dev"], ctr, allow_bad=allow_bad, store=store))
     # a few ordinary files that must never be read
     _put(root, "proj/sub", "x.py", mkfile(rng, poison=ctr.next()))
     if rng.random() < 0.5:
